@@ -103,8 +103,8 @@ HcTerm(t) == [c |-> GConj(t.c), raw |-> t.raw,
 \* non-zero entries <<row, col, re, im>> (0-based), as a set: the compact form handed to the harness
 \* (no recursion: matrices of a few hundred rows must not exhaust the evaluation stack)
 Sparse(A) == [n |-> NRows(A),
-              e |-> {<<rs[1] - 1, rs[2] - 1, A[rs[1]][rs[2]][1], A[rs[1]][rs[2]][2]>> :
-                        rs \in {x \in (1..NRows(A)) \X (1..NCols(A)) : ~GIsZero(A[x[1]][x[2]])}}]
+              e |-> UNION {{<<r - 1, q - 1, A[r][q][1], A[r][q][2]>> : q \in {x \in 1..NCols(A) : ~GIsZero(A[r][x])}} :
+                              r \in 1..NRows(A)}]
 
 -----------------------------------------------------------------------------
 \* lattice configuration  c = [name, Lx, Ly, bcx, bcy, mps, uc (Seq of site types), cells]
